@@ -45,12 +45,53 @@ func WA(key string, ins ...WIn) Op     { return Op{K: "WN", Key: key, In: ins} }
 func WB(f string, e ...string) Op      { return Op{K: "WB", From: f, Ends: e, Cond: "s"} }
 func WBi(f string, e ...string) Op     { return Op{K: "WB", From: f, Ends: e, Cond: "i"} }
 
+func inFF(from, fromF, field string) WIn { return WIn{From: from, FromF: fromF, Field: field} }
+func WT(typ, key string, ins ...WIn) Op { return Op{K: "WN", Key: key, Typ: typ, In: ins} }
+func WPh(key, h string, ins ...WIn) Op  { return Op{K: "WN", Key: key, Typ: "P", H: h, In: ins} }
+func GN(key string, sub *Sub) Op        { return Op{K: "GN", Key: key, Sub: sub} }
+func CG(sub *Sub) Op                    { return Op{K: "CG", Sub: sub} }
+func WG(key string, sub *Sub, ins ...WIn) Op {
+	return Op{K: "WN", Key: key, Typ: "G", Sub: sub, In: ins}
+}
+
+// graphs that are added as nodes (string→string); opts(...) = WithGraphCompileOptions
+func subOpt(sub *Sub, opt string) *Sub { return newSub(sub.FE, sub.Ops, true, opt) }
+
+var (
+	subGraphLine   = newSub("graph", []Op{L("a"), E("start", "a"), E("a", "end")}, false, "")
+	subGraphBranch = newSub("graph", []Op{L("a"), L("b"), E("start", "a"), B("a", "b", "end"), E("b", "end")}, false, "")
+	// a loop that is legal unless the graph runs in all-predecessor mode
+	subGraphLoopEdge   = newSub("graph", []Op{L("a"), L("b"), E("start", "a"), E("a", "b"), E("b", "a"), E("b", "end")}, false, "")
+	subGraphLoopBranch = newSub("graph", []Op{L("a"), L("b"), E("start", "a"), E("a", "b"), B("b", "a", "end")}, false, "")
+	subGraphNoExit     = newSub("graph", []Op{L("a"), E("start", "a")}, false, "")
+	subChainLine       = newSub("chain", []Op{CL("s"), CP()}, false, "")
+	subWfLine          = newSub("workflow", []Op{WL("a", in("start")), WA("end", in("a"))}, false, "")
+	subWfBranch        = newSub("workflow", []Op{WL("a", in("start")), WL("b", inND("a")), WB("a", "b", "end"), WA("end", in("b"))}, false, "")
+	subWfLoopDep       = newSub("workflow", []Op{WL("a", in("start"), dep("b")), WL("b", in("a")), WA("end", in("b"))}, false, "")
+	subWfLoopBranch    = newSub("workflow", []Op{WL("a", in("start")), WL("b", in("a")), WB("b", "a", "end"), WA("end", in("b"))}, false, "")
+	subWfLoopData      = newSub("workflow", []Op{WL("a", dep("start"), inND("b")), WL("b", in("a")), WA("end", in("b"))}, false, "")
+	subWfMappedPass    = newSub("workflow", []Op{WP("p", inF("start", "X")), WS("c", in("p")), WA("end", in("c"))}, false, "")
+)
+
+// nestedVariants: the graphs above with the compile options that matter for them, valid and invalid.
+var nestedVariants = []*Sub{
+	subGraphLine, subOpt(subGraphLine, "all"), subOpt(subGraphLine, "all+max"), subOpt(subGraphLine, "max+name+all"), subOpt(subGraphLine, "max"),
+	subOpt(subGraphBranch, "all"), subGraphLoopEdge, subOpt(subGraphLoopEdge, "all"), subOpt(subGraphLoopBranch, "max"), subOpt(subGraphLoopBranch, "all"),
+	subOpt(subGraphLoopBranch, "name+all"), subGraphNoExit,
+	subChainLine, subOpt(subChainLine, "max"), subOpt(subChainLine, "all"), subOpt(subChainLine, "any+name"),
+	subWfLine, subOpt(subWfLine, "name"), subOpt(subWfLine, "max"), subOpt(subWfLine, "name+max"), subOpt(subWfLine, "max+store"), subOpt(subWfLine, "all"), subOpt(subWfLine, "any"),
+	subWfBranch, subWfLoopDep, subWfLoopBranch, subWfLoopData, subOpt(subWfLoopData, "name"), subWfMappedPass,
+}
+
 type family struct {
 	name    string
 	fe      string
 	state   bool
 	prelude []Op
 	alpha   []Op
+	reps    int // attempts of every sequence (0 = default)
+	lenQ    int // sequence length in the quick / thorough tier (0 = by front end, see maxLen)
+	lenT    int
 }
 
 // maxLen: sequences of length 1..maxLen are enumerated. Quick tier: 4 for the
@@ -58,6 +99,12 @@ type family struct {
 // thorough tier: 5, except the two Workflow families that start from a prelude
 // (4 calls after the prelude).
 func (f *family) maxLen(thorough bool) int {
+	if thorough && f.lenT > 0 {
+		return f.lenT
+	}
+	if !thorough && f.lenQ > 0 {
+		return f.lenQ
+	}
 	switch {
 	case thorough && f.fe == "workflow" && len(f.prelude) > 0:
 		return 4
@@ -97,6 +144,24 @@ var families = []family{
 	{name: "W-passthrough-dependencies", fe: "workflow", prelude: []Op{WL("a", in("start"))},
 		alpha: []Op{WP("p", dep("start")), WP("p", dep("a")), WP("p", in("a")), WP("p"), WA("end", in("a")), WA("end", dep("p")), WA("end", in("p")),
 			WA("p", dep("a")), WL("b", in("p")), WA("end", in("b")), WB("a", "p", "end"), K(""), K("name"), K("max")}},
+	// nodes with an input / output key next to typed nodes and to passthrough nodes whose type is not known yet
+	{name: "G-keyed-nodes", fe: "graph", prelude: []Op{Lt("m", "d"), E("d", "end")},
+		alpha: []Op{Ph("a", "ok"), Lh("a", "ok"), P("b"), Ph("c", "ik"), Ph("c", "iok"), E("start", "a"), E("a", "b"), E("b", "d"), E("a", "d"), E("a", "c"), E("c", "end"),
+			B("b", "d", "end"), K("")}},
+	// all-predecessor mode over graphs whose nodes are reached through branches, plain edges or both: acyclic ones
+	// and ones with a loop closed by an edge or by a branch; the DAG validation iterates Go maps (30 attempts)
+	{name: "G-dag-branches", fe: "graph", reps: 30, lenQ: 3, lenT: 4, prelude: []Op{L("a"), L("b"), L("c"), E("start", "a"), E("c", "end")},
+		alpha: []Op{B("a", "b", "end"), B("a", "b", "c"), E("a", "b"), E("b", "c"), B("b", "c", "end"), E("a", "c"), E("b", "a"), B("c", "a", "end"), B("b", "a", "c"), B("start", "b", "c"),
+			K("all"), K("")}},
+	// inputs with field mappings on passthrough nodes: what is declared first must not matter, and Workflow.compile
+	// visits the nodes in the order of a Go map (every sequence is repeated 30 times)
+	{name: "W-mapped-passthrough", fe: "workflow", reps: 30, prelude: []Op{WL("a", in("start")), WS("c", in("p")), WA("end", in("c"))},
+		alpha: []Op{WP("p", inF("start", "X")), WP("p", inF("a", "Y")), WP("p", inF("start", "X"), inF("a", "Y")), WP("p", inNDF("a", "X"), dep("a")), WP("p"), WA("p", inF("a", "Y")),
+			WT("sS", "b", in("a")), WP("p", in("b")), WP("p", inFF("b", "X", "Y")), WA("p", inFF("b", "Y", "X")), WL("c", in("p")), WA("p", inFF("b", "X", "")), K(""), K("name")}},
+	// loops in a Workflow (always all-predecessor mode), closed through every kind of connection
+	{name: "W-loops", fe: "workflow", prelude: []Op{WL("b", in("a")), WA("end", in("b"))},
+		alpha: []Op{WL("a", in("start")), WL("a", dep("start"), inND("b")), WL("a", dep("start"), in("b")), WL("a", in("start"), dep("b")), WA("a", dep("b")), WA("a", inND("b")),
+			WB("b", "a", "end"), WB("a", "b", "end"), WA("b", dep("a")), WL("c", in("b")), WA("a", dep("c")), WS("a", inF("start", "X"), inNDF("b", "Y")), K(""), K("max")}},
 }
 
 // countSeqs returns the number of sequences of length 1..maxLen over n symbols.
@@ -123,7 +188,7 @@ func (f *family) nthSeq(i int64) *Seq {
 		ops[k] = f.alpha[i%n]
 		i /= n
 	}
-	return (&Seq{FE: f.fe, State: f.state, Family: f.name, Prelude: f.prelude, Ops: ops}).fill()
+	return (&Seq{FE: f.fe, State: f.state, Family: f.name, Prelude: f.prelude, Ops: ops, Reps: f.reps}).fill()
 }
 
 // ---- full alphabets (injection and random workloads) ------------------------
@@ -139,12 +204,15 @@ var fullGraph = []Op{
 	B("a", "z", "y"), B("z", "a", "b"), B("end", "a", "b"), B("c", "a", "end"), B("c", "b", "end"), Bi("c", "b", "end"), B("a", "a", "end"),
 	Bi("a", "b", "end"), B("a", "c", "end"), B("a", "b", "c", "end"), B("a", "start", "end"),
 	K(""), K("all"), K("any"), K("max"), K("all+max"), K("any+max"), K("name"), K("store"),
+	// nodes with input / output keys, option sets in another order
+	Ph("c", "ok"), Ph("c", "ik"), Ph("c", "iok"), Lh("a", "ok"), Lh("b", "ik"), Lt("m", "b"), K("max+all"), K("name+all"), K("store+max+all"),
 }
 
 var fullChain = []Op{
 	CL("s"), CL("i"), CL("si"), CL("is"), CL("m"), CLh("key"), CLh("pre"), CLh("post"), CLh("preS"), CLh("preV"), CP(), CPh("pre"), CPh("preV"),
 	CPar(2), CPar(3), CPar(1), CPar(0), CPar(-1), CBr(2), CBr(3), CBri(2), CBr(1), CBr(0), CBr(-1),
 	K(""), K("all"), K("any"), K("max"), K("name"), K("store"),
+	CPh("ok"), CPh("ik"), CPh("iok"), CLh("ok"), K("max+all"), K("name+any"),
 }
 
 var fullWorkflow = []Op{
@@ -160,6 +228,21 @@ var fullWorkflow = []Op{
 	WB("a", "b", "end"), WB("a", "b", "z"), WB("a", "b"), WB("z", "a", "end"), WB("start", "a", "b"), WB("a", "b", "c"), WB("end", "a", "b"),
 	WBi("a", "b", "end"), WB("b", "a", "end"),
 	K(""), K("max"), K("all"), K("any"), K("name"), K("store"),
+	// field mappings at passthrough nodes, keyed nodes, loops through data-only inputs, option sets in another order
+	WP("p", inF("a", "X")), WP("p", inF("start", "X"), inF("a", "Y")), WS("c", in("p")), WT("sS", "b", in("a")), WL("c", inFF("b", "X", "")), WP("p", inFF("b", "X", "")),
+	WPh("p", "ok", in("a")), WPh("p", "ik", in("a")), WPh("p", "iok", in("a")), WT("m", "b", in("p")),
+	WL("a", dep("start"), inND("b")), WA("a", inND("b")), WA("a", inNDF("b", "Y")), WA("b", inND("a")),
+	K("name+max"), K("max+name"), K("store+max"), K("max+any"),
+}
+
+func init() {
+	// graphs added as nodes, under the keys the base programs use (substituted for a node of a base program
+	// they are connected like that node)
+	for _, sub := range nestedVariants {
+		fullGraph = append(fullGraph, GN("a", sub), GN("b", sub))
+		fullChain = append(fullChain, CG(sub))
+		fullWorkflow = append(fullWorkflow, WG("a", sub, in("start")), WG("b", sub, in("a")))
+	}
 }
 
 func fullAlphabet(fe string) []Op {
@@ -179,6 +262,7 @@ type base struct {
 	fe    string
 	state bool
 	ops   []Op
+	reps  int
 }
 
 var bases = []base{
@@ -205,6 +289,17 @@ var bases = []base{
 	{name: "w-branch", fe: "workflow", ops: []Op{WL("a", in("start")), WL("b", inND("a")), WB("a", "b", "end"), WA("end", in("b")), K("")}},
 	{name: "w-passthrough", fe: "workflow", ops: []Op{WL("a", in("start")), WP("p", in("a")), WL("b", in("p"), dep("a")), WA("end", in("b")), K("name")}},
 	{name: "w-dep-state", fe: "workflow", state: true, ops: []Op{WLh("a", "pre", in("start")), WL("b", in("start"), dep("a")), WA("end", in("b")), K("store")}},
+
+	{name: "g-keyed", fe: "graph", ops: []Op{L("a"), Ph("c", "ok"), Lt("m", "b"), E("start", "a"), E("a", "c"), E("c", "b"), E("b", "end"), K("")}},
+	{name: "g-keyed-in", fe: "graph", ops: []Op{Lh("a", "ok"), Ph("c", "ik"), L("b"), E("start", "a"), E("c", "b"), E("a", "c"), E("b", "end"), K("all")}},
+	{name: "g-nested-all", fe: "graph", ops: []Op{L("a"), GN("b", subOpt(subGraphBranch, "all")), E("start", "a"), E("a", "b"), E("b", "end"), K("all")}},
+	{name: "g-nested-workflow", fe: "graph", ops: []Op{GN("a", subWfBranch), GN("b", subOpt(subGraphLoopBranch, "max")), E("start", "a"), E("a", "b"), E("b", "end"), K("max")}},
+	{name: "c-keyed", fe: "chain", ops: []Op{CPh("ok"), CP(), CL("m"), K("")}},
+	{name: "c-nested", fe: "chain", ops: []Op{CL("s"), CG(subOpt(subWfLine, "name")), CG(subOpt(subGraphLine, "all")), K("max")}},
+	{name: "w-mapped-passthrough", fe: "workflow", reps: 30, ops: []Op{WL("a", in("start")), WP("p", inF("start", "X"), inF("a", "Y")), WS("c", in("p")), WA("end", in("c")), K("")}},
+	{name: "w-from-field-passthrough", fe: "workflow", reps: 30, ops: []Op{WT("sS", "b", in("start")), WP("p", inFF("b", "X", "")), WL("a", in("p")), WA("end", in("a")), K("name")}},
+	{name: "w-data-only", fe: "workflow", ops: []Op{WL("a", in("start")), WL("b", in("a")), WL("c", inND("a"), dep("b")), WA("end", in("c")), K("name")}},
+	{name: "w-nested", fe: "workflow", ops: []Op{WL("a", in("start")), WG("b", subOpt(subGraphLine, "all"), in("a")), WG("c", subWfBranch, in("b")), WA("end", in("c")), K("")}},
 }
 
 // injection sequences of one base: (position, full-alphabet op, insert|replace).
@@ -230,7 +325,7 @@ func (b *base) nthInjection(i int64) *Seq {
 		ops = append(ops, v)
 		ops = append(ops, b.ops[pos+1:]...)
 	}
-	return (&Seq{FE: b.fe, State: b.state, Family: "inject:" + b.name, Ops: ops}).fill()
+	return (&Seq{FE: b.fe, State: b.state, Family: "inject:" + b.name, Ops: ops, Reps: b.reps}).fill()
 }
 
 // ---- random longer sequences -----------------------------------------------------
